@@ -75,7 +75,11 @@ class Ledger(object):
                     self._viol(sim, 'core-index-out-of-range',
                                '%s: core %s on node %s' % (uid, idx, ni))
                     continue
-                if node['cores'][idx] is None:
+                # decided from the layout the environment was generated from,
+                # not from the marks in the node list (the very thing a defect
+                # in the resource manager gets wrong)
+                if node['cores'][idx] is None or \
+                        idx in (sim.case['layout'].get('blocked_cores') or []):
                     self._viol(sim, 'blocked-core-used',
                                '%s got blocked core %d on node %d'
                                % (uid, idx, ni))
@@ -96,7 +100,8 @@ class Ledger(object):
                     self._viol(sim, 'gpu-index-out-of-range',
                                '%s: gpu %s on node %s' % (uid, idx, ni))
                     continue
-                if node['gpus'][idx] is None:
+                if node['gpus'][idx] is None or \
+                        idx in (sim.case['layout'].get('blocked_gpus') or []):
                     self._viol(sim, 'blocked-gpu-used',
                                '%s got blocked gpu %d on node %d'
                                % (uid, idx, ni))
